@@ -305,9 +305,14 @@ class SetMethod(DeserializationMethod):
         values: set = set()
         for i, elt in enumerate(data):
             try:
-                values.add(self.value_method.deserialize(elt))
+                value = self.value_method.deserialize(elt)
             except ValidationError as err:
                 elt_errors = set_child_error(elt_errors, i, err)
+                continue
+            try:
+                values.add(value)
+            except TypeError as err:  # unhashable item
+                elt_errors = set_child_error(elt_errors, i, ValidationError(str(err)))
         validate_constraints(data, self.constraints, elt_errors)
         return values
 
@@ -317,7 +322,17 @@ class FrozenSetMethod(DeserializationMethod):
     method: DeserializationMethod
 
     def deserialize(self, data: Any) -> Any:
-        return frozenset(self.method.deserialize(data))
+        values = self.method.deserialize(data)
+        try:
+            return frozenset(values)
+        except TypeError:  # unhashable items
+            elt_errors: ErrorDict = {}
+            for i, value in enumerate(values):
+                try:
+                    hash(value)
+                except TypeError as err:
+                    elt_errors[i] = ValidationError(str(err))
+            raise ValidationError(children=elt_errors) from None
 
 
 @dataclass
